@@ -1,8 +1,8 @@
 (* C02 -- Rebuild set is exactly the set of targets whose inputs changed.
    PARTIAL (see C01.v for the reason): decision rules + facts about how the
    recorded dependency set is maintained. *)
-From Coq Require Import ZArith.
-From Redo Require Import Base.Bytes Build.Model Build.LocalProofs.
+From Coq Require Import ZArith List.
+From Redo Require Import Base.Bytes Build.Model Build.LocalProofs Build.FailProofs.
 
 Theorem C02_never_built_runs : forall fuel runid w c f r mx seen,
   existsb (Nat.eqb f) seen = false ->
@@ -25,6 +25,30 @@ Check C02_failed_runs : forall fuel runid w c f r mx seen,
   r_failed r <> None ->
   is_dirty (S fuel) runid w c f r mx seen = Ret (VDirty, w, c, []).
 Print Assumptions C02_failed_runs.
+
+(* over the whole walk: a recorded Modified dependency that failed, was never
+   built, or changed in a later run than the one in which the target was last
+   built or verified makes the target not clean -- wherever it stands in the
+   dependency list and whatever the other rows say (every database, fuel,
+   callback; [r] is the copy of the target's row that the check judges) *)
+Theorem C02_moved_on_dep_not_clean : forall fuel runid w c f r mx seen v w' c' evs chg,
+  is_dirty fuel runid w c f r mx seen = Ret (v, w', c', evs) ->
+  chk_is_checked c runid r f = false ->
+  r_changed r = Some chg ->
+  (exists d, In d (deps_of (dbs w) r f) /\ d_mode d = DModified /\
+     moved_on (Z.max chg match r_checked r with Some k => k | None => 0%Z end) (load runid (dbs w) (d_source d))) ->
+  v <> VClean.
+Proof. exact moved_on_dep_not_clean. Qed.
+Check C02_moved_on_dep_not_clean : forall fuel runid w c f r mx seen v w' c' evs chg,
+  is_dirty fuel runid w c f r mx seen = Ret (v, w', c', evs) ->
+  chk_is_checked c runid r f = false ->
+  r_changed r = Some chg ->
+  (exists d, In d (deps_of (dbs w) r f) /\ d_mode d = DModified /\
+     let rs := load runid (dbs w) (d_source d) in
+     let sm := Z.max chg match r_checked r with Some k => k | None => 0%Z end in
+     (r_failed rs <> None \/ r_changed rs = None \/ exists cg, r_changed rs = Some cg /\ (sm < cg)%Z)) ->
+  v <> VClean.
+Print Assumptions C02_moved_on_dep_not_clean.
 
 (* deciding dirtiness has no effect on any file *)
 Theorem C02_check_no_file_effect : forall fuel runid w c f r mx seen v w' c' evs,
